@@ -11,7 +11,9 @@ condition of the property: (1) division rule — the renormalising division is o
 a dominating test of its divisor (otherwise an infoset in which nothing exceeds the threshold is
 divided by 0 and stops being a distribution); (2) survivor agreement — the predicate that selects the
 entries summed into the normaliser and the predicate that selects the entries kept are the same
-comparison against the same threshold, and every other entry is set to the constant 0; (3) the
+comparison against the same threshold, and every other entry is set to the constant 0; (2b) besides
+that predicate and the non-zero test, no data-dependent condition guards the rewrite (so an infoset
+with survivors always loses its small actions); (3) the
 probability vector is partitioned by num_actions of the infosets of the *same* player
 (player_infosets zipped with probs, in order). Not decided: "nothing changes beyond rounding" and
 idempotence as numbers.
@@ -71,6 +73,26 @@ def run(ctx):
             ctx.verdict(same, rule, key, text, site,
                         'sum selects `elem %s %s`, rescale keeps `elem %s %s` (edge %s)' % (kc, facts.show(thr_in_closure) if thr_in_closure else '?', kg, facts.show(thr_guard), g['truth']),
                         breaks='entries between the two predicates are kept but not counted (or counted but zeroed): the slice no longer sums to one')
+            # the rewrite happens whenever something survives: besides the survivor predicate itself and
+            # the non-zero test of the normaliser, no data-dependent condition may skip it
+            nz = e2.nonzero_guard(f, dv['bi'], dv['den'])
+            extra, thresh_only = [], []
+            for c in f.conds(dv['bi']):
+                if c is g or (nz is not None and c['switch'] == nz['switch']) or c['switch'] == g['switch']:
+                    continue
+                if c['kind'] == 'variant':
+                    continue     # iterator protocol (Some / None)
+                if c['kind'] in ('Gt', 'Ge', 'Lt', 'Le', 'Eq', 'Ne', 'bool', 'IsFinite', 'IsNan', 'Is:is_empty', 'Is:any', 'Is:all'):
+                    deps = [x for side in (c.get('a'), c.get('b')) if side is not None for x in facts.walk(side) if x[0] in ('param', 'upvar', 'var', 'call', 'field')]
+                    only_thresh = thr_in_closure is not None and deps and all(norm(x) == norm(thr_in_closure) for x in deps if x[0] in ('param', 'upvar', 'var')) and not any(x[0] == 'call' for x in deps)
+                    (thresh_only if only_thresh else extra).append(c)
+            ctx.verdict(not extra, 'C18.rewrite-whenever-survivors', 'C18.rewrite-whenever-survivors:%s' % q.top(f.name),
+                        'in an infoset where something exceeds the threshold the small actions are removed: the rewrite is guarded only by the non-zero test of the normaliser', site,
+                        'additional data-dependent guards on the rewrite: %s' % ['%s(%s, %s) edge %s @ line %s' % (c['kind'], facts.show(c['a'])[:40], facts.show(c['b'])[:30] if c.get('b') is not None else '', c.get('truth'), c['line']) for c in extra],
+                        breaks='infosets with survivors keep their below-threshold actions (e.g. when the removed mass is below one ulp of the total)')
+            if thresh_only:
+                ctx.sres(False, 'C18.rewrite-whenever-survivors', 'C18.rewrite-whenever-survivors:threshold-only-guard:%s' % q.top(f.name),
+                         'a guard that depends on the threshold alone may or may not preserve the behaviour', site, 'not decided: %d such guard(s)' % len(thresh_only))
             # the divisor is that sum
             den = norm(dv['den'])
             ctx.verdict(den == norm(filt[2]), 'C18.normaliser-is-sum', 'C18.normaliser-is-sum:%s' % q.top(f.name),
